@@ -15,6 +15,12 @@
 //              flight (loopback softirq): re-polled with real-time naps, inconclusive after 10 s, never a violation
 //   closing  : failed read/write (recv/send log) => onClosed before the loop blocks
 //   interrupt: run() returns iff interrupt() was requested since the last return; after interrupt() the very next poll must wake
+//   names    : establishers made with Server::connect(host name, port): the library resolves in a worker thread of its thread pool. getaddrinfo is interposed
+//              (net_shims) and every resolution waits inside the hook until the scenario releases it (an external action like peer traffic), so "resolution
+//              pending" is a state the scenario controls: the establisher can be removed while it resolves, after it resolved but before the loop has looked at
+//              the result, or - inside onAbolished - be removed and replaced at once by a new connect(host) (the pool reuses the slot). After a release the harness
+//              waits (real time, bounded) until the resolver thread has written the loop's wake-up descriptor; nothing else in the world mode depends on threads.
+//              No callback before the resolution was released, none after remove(), a released resolution is acted upon before the loop blocks again.
 // Threaded scenarios (mode threads, real time, plain and tsan builds): 1..3 threads call interrupt() while run() polls for real.
 #include "srv_util.hpp"
 #include <nstd/Socket/Server.hpp>
@@ -23,6 +29,7 @@
 #include <pthread.h>
 #include <sched.h>
 #include <sys/stat.h>
+#include <netdb.h>
 
 using namespace vh;
 namespace ns = netshim;
@@ -46,12 +53,15 @@ struct ClientM {
   u64 backlog() const { return out.total(inWrite) - S; }
 };
 struct ListenerM { int id; LCB cb; Server::Listener* l; int fd; uint16_t port; bool alive, inBatch, removedSelected; int removedVenue; Vec<int> pendFd; Vec<int> pendPort; long accepted; };
-struct EstabM { int id; ECB cb; Server::Establisher* e; int fd; uint16_t lport; bool alive, done, openTarget, inBatch, removedSelected; int removedVenue; };
+enum EstabKind { EK_ADDR_OPEN, EK_ADDR_CLOSED, EK_NAME_FAIL, EK_NAME_OPEN, EK_NAME_CLOSED, EK_NUMERIC_OPEN, NEK };   // numeric = host string "127.0.0.1": no resolver involved
+static const char* const EKN[] = { "open-port", "closed-port", "unresolvable-name", "name-of-open-port", "name-of-closed-port", "numeric-host-open-port" };
+struct EstabM { int id; ECB cb; Server::Establisher* e; int fd; uint16_t lport; bool alive, done, openTarget, inBatch, removedSelected; int removedVenue;
+                int kind; bool byName, released, sockKnown; const char* removedClass; };
 
-enum Act { A_TIMER_NEW, A_TIMER_DEL, A_PAIR_NEW, A_CLIENT_DEL, A_CLIENT_WRITE, A_SUSPEND, A_RESUME, A_LISTEN_NEW, A_LISTEN_DEL, A_ESTAB_NEW, A_ESTAB_DEL, A_INTERRUPT,
-           A_PEER_SEND, A_PEER_CLOSE, A_RAW_CONNECT, NACT };
-static const char* const AN[] = { "timer-new", "timer-del", "pair-new", "client-del", "client-write", "suspend", "resume", "listen-new", "listen-del", "estab-new", "estab-del", "interrupt",
-                                  "peer-send", "peer-close", "raw-connect" };
+enum Act { A_TIMER_NEW, A_TIMER_DEL, A_PAIR_NEW, A_CLIENT_DEL, A_CLIENT_WRITE, A_SUSPEND, A_RESUME, A_LISTEN_NEW, A_LISTEN_DEL, A_ESTAB_NEW, A_ESTAB_DEL, A_BROADCAST_DEAD, A_INTERRUPT,
+           A_PEER_SEND, A_PEER_CLOSE, A_RAW_CONNECT, A_RESOLVE, NACT };
+static const char* const AN[] = { "timer-new", "timer-del", "pair-new", "client-del", "client-write", "suspend", "resume", "listen-new", "listen-del", "estab-new", "estab-del", "broadcast-to-dead-peers", "interrupt",
+                                  "peer-send", "peer-close", "raw-connect", "resolution-completes" };
 
 static Server* g_srv = 0;
 static Vec<TimerM*> g_tm; static Vec<ClientM*> g_cl; static Vec<ListenerM*> g_ls; static Vec<EstabM*> g_es;
@@ -118,6 +128,59 @@ static void rawCleanup() {
   for (;;) { int fd = accept4(g_rawListen, 0, 0, SOCK_CLOEXEC); if (fd < 0) break; lingerReset(fd, true); close(fd); }
   for (size_t i = 0; i < g_garbageFds.n; ++i) close(g_garbageFds[i]);
   g_garbageFds.clear();
+}
+
+// ---------------------------------------------------------------- scripted name resolution (the hook runs in the library's resolver threads)
+enum { MAXG = 48 };
+struct Gate { int used, state, released, failing; };   // state: 0 not yet asked, 1 waiting inside getaddrinfo, 2 answered
+static Gate g_gate[MAXG];
+static pthread_mutex_t g_gateMx = PTHREAD_MUTEX_INITIALIZER; static pthread_cond_t g_gateCv = PTHREAD_COND_INITIALIZER;
+static int g_eventFd = -1;
+static int resolveHook(const char* node, uint32_t* addr) {
+  int id = -1;
+  if (!node || node[0] != 'e' || sscanf(node + 1, "%d", &id) != 1 || id < 0 || id >= MAXG || !strstr(node, ".test")) return ns::RESOLVE_PASS;
+  pthread_mutex_lock(&g_gateMx);
+  Gate& g = g_gate[id];
+  g.state = 1; pthread_cond_broadcast(&g_gateCv);
+  while (!g.released) pthread_cond_wait(&g_gateCv, &g_gateMx);
+  int failing = g.failing; g.state = 2; pthread_cond_broadcast(&g_gateCv);
+  pthread_mutex_unlock(&g_gateMx);
+  if (failing) return EAI_NONAME;
+  *addr = 0x7f000001u;
+  return 0;
+}
+// the library's thread pool: enough workers for every resolution a scenario keeps waiting (independent of the number of processors)
+extern "C" void libnstd_verif_pool_config(usize* minThreads, usize* maxThreads, usize* queueSize) { (void)minThreads; (void)queueSize; *maxThreads = 12; }
+static int gatesWaiting() { int n = 0; pthread_mutex_lock(&g_gateMx); for (int i = 0; i < MAXG; ++i) if (g_gate[i].used && !g_gate[i].released) ++n; pthread_mutex_unlock(&g_gateMx); return n; }
+static void openAllGates() { pthread_mutex_lock(&g_gateMx); for (int i = 0; i < MAXG; ++i) g_gate[i].released = 1; pthread_cond_broadcast(&g_gateCv); pthread_mutex_unlock(&g_gateMx); }
+// the resolution of establisher m completes now: the resolver thread leaves getaddrinfo, marks the resolver finished and wakes the loop (eventfd). Returns false if
+// nothing was done (the wake-up descriptor is already readable: the completion could not be told apart from the pending wake-up)
+static bool releaseGate(EstabM* m) {
+  if (!m->byName || m->released) return false;
+  if (su::pollNow(g_eventFd, POLLIN)) { cnt("resolution_release_skipped_wakeup_pending"); return false; }
+  int64_t t0 = ns::realMonotonicMs();
+  pthread_mutex_lock(&g_gateMx);
+  Gate& g = g_gate[m->id];
+  while (g.state == 0) {   // the pool has not started the job yet
+    pthread_mutex_unlock(&g_gateMx); su::sleepUs(100);
+    if (ns::realMonotonicMs() - t0 > 30000) harnessBug("establisher %d: the library never called getaddrinfo for its host name (30 s)", m->id);
+    pthread_mutex_lock(&g_gateMx);
+  }
+  g.released = 1; pthread_cond_broadcast(&g_gateCv);
+  pthread_mutex_unlock(&g_gateMx);
+  if (!su::waitReady(g_eventFd, POLLIN, 30000)) harnessBug("establisher %d: the resolver thread did not wake the loop within 30 s after getaddrinfo returned", m->id);
+  m->released = true;
+  cnt("resolutions_completed"); cnt(m->alive ? "resolutions_completed_establisher_alive" : "resolutions_completed_establisher_removed");
+  { char it[64]; snprintf(it, sizeof it, "%s/%s/%s", EKN[m->kind], m->alive ? "alive" : "removed", VN[g_venue]); setItem("resolution_completions", it); }
+  hist.addf("  [%s] the resolution of establisher%d's name completes (%s)%s\n", VN[g_venue], m->id, m->kind == EK_NAME_FAIL ? "unknown host" : "127.0.0.1", m->alive ? "" : " - the establisher was removed meanwhile");
+  g_fp = mix(g_fp, 1200 + (u64)m->id);
+  return true;
+}
+// by-name establisher whose resolution has completed: has the loop opened its socket yet (no callback tells)?
+static void refreshEstab(EstabM* m) {
+  if (!m->alive || m->done || !m->byName || !m->released || m->sockKnown) return;
+  int s = ((Socket*)(void*)m->e)->s;
+  if (s >= 0) { m->fd = s; m->lport = localPort(s); m->sockKnown = true; cnt("named_establishers_seen_connecting"); }
 }
 
 // ---------------------------------------------------------------- peer side of clients
@@ -299,25 +362,53 @@ static void rawConnect(ListenerM* m) {
   m->pendFd.push(fd); m->pendPort.push((int)localPort(fd));
   cnt("raw_connects"); hist.addf("  raw connection from port %u to listener%d\n", (unsigned)localPort(fd), m->id);
 }
-static EstabM* newEstab(bool open) {
+static EstabM* newEstab(int kind) {
+  const bool open = kind == EK_ADDR_OPEN || kind == EK_NAME_OPEN || kind == EK_NUMERIC_OPEN, byName = kind == EK_NAME_FAIL || kind == EK_NAME_OPEN || kind == EK_NAME_CLOSED;
+  if (byName && ((int)g_es.n >= MAXG || gatesWaiting() >= 6)) return 0;
   EstabM* m = new EstabM; m->id = (int)g_es.n; m->cb.m = m; m->alive = true; m->done = false; m->openTarget = open; m->inBatch = m->removedSelected = false; m->removedVenue = 0;
-  setctxf("Server.connect/%s/%s", open ? "open-port" : "closed-port", VN[g_venue]);
-  m->e = g_srv->connect(Socket::loopbackAddress, open ? g_rawPort : g_closedPort, m->cb);
+  m->kind = kind; m->byName = byName; m->released = m->sockKnown = false; m->removedClass = 0; m->fd = -1; m->lport = 0;
+  if (kind == EK_ADDR_OPEN || kind == EK_ADDR_CLOSED) {
+    setctxf("Server.connect/%s/%s", open ? "open-port" : "closed-port", VN[g_venue]);
+    m->e = g_srv->connect(Socket::loopbackAddress, open ? g_rawPort : g_closedPort, m->cb);
+  } else {
+    char host[64];
+    if (kind == EK_NUMERIC_OPEN) snprintf(host, sizeof host, "127.0.0.1");
+    else {
+      snprintf(host, sizeof host, "e%d.%s.test", m->id, kind == EK_NAME_FAIL ? "unknown" : open ? "open" : "closed");
+      pthread_mutex_lock(&g_gateMx); Gate& g = g_gate[m->id]; g.used = 1; g.state = 0; g.released = 0; g.failing = kind == EK_NAME_FAIL; pthread_mutex_unlock(&g_gateMx);
+    }
+    setctxf("Server.connect(host)/%s/%s", EKN[kind], VN[g_venue]);
+    m->e = g_srv->connect(String(host, strlen(host)), open ? g_rawPort : g_closedPort, m->cb);
+    if (!m->e && byName) { pthread_mutex_lock(&g_gateMx); g_gate[m->id].used = 0; pthread_mutex_unlock(&g_gateMx); }
+  }
   setctx(ctxBase());
   if (!m->e) { cnt("connect_returned_null"); delete m; return 0; }
-  m->fd = ((Socket*)(void*)m->e)->s; m->lport = localPort(m->fd);
-  g_es.push(m); cnt(open ? "establishers_to_open_port" : "establishers_to_closed_port"); hist.addf("  [%s] establisher%d = connect(%s port) from port %u\n", VN[g_venue], m->id, open ? "open" : "closed", (unsigned)m->lport);
-  g_fp = mix(g_fp, 800 + (open ? 1 : 0));
+  if (!byName) { m->fd = ((Socket*)(void*)m->e)->s; m->lport = localPort(m->fd); m->sockKnown = true; }
+  g_es.push(m); cnt(open ? "establishers_to_open_port" : "establishers_to_closed_port");
+  if (byName) { cnt("establishers_by_name"); hist.addf("  [%s] establisher%d = connect(host name: %s), resolution pending\n", VN[g_venue], m->id, EKN[kind]); }
+  else { if (kind == EK_NUMERIC_OPEN) cnt("establishers_by_numeric_host"); hist.addf("  [%s] establisher%d = connect(%s port) from port %u\n", VN[g_venue], m->id, open ? "open" : "closed", (unsigned)m->lport); }
+  setItem("establisher_kinds", EKN[kind]);
+  g_fp = mix(g_fp, 800 + (open ? 1 : 0) + (u64)kind * 2);
   return m;
 }
+static int pickEstabKind() {
+  Rng& r = *g_rng;
+  if (r.chance(1, 2)) return r.chance(3, 5) ? EK_ADDR_OPEN : EK_ADDR_CLOSED;
+  u32 x = (u32)r.below(20);
+  return x < 8 ? EK_NAME_FAIL : x < 15 ? EK_NAME_OPEN : x < 18 ? EK_NAME_CLOSED : EK_NUMERIC_OPEN;
+}
 static void removeEstab(EstabM* m) {
-  m->removedSelected = m->inBatch && !m->done; m->removedVenue = g_venue;
-  setctxf("Server.remove(Establisher)/%s/%s%s", m->done ? "finished" : m->inBatch ? "event-selected" : "pending", VN[g_venue], m == g_selfEstab ? "/self" : "");
-  hist.addf("  [%s] remove(establisher%d)%s\n", VN[g_venue], m->id, m->done ? " (finished)" : m->inBatch ? " (event selected, undelivered)" : " (pending)");
+  refreshEstab(m);
+  // by name: "resolving" = getaddrinfo has not returned, "resolved-unprocessed" = it has, the loop has not looked at the result yet
+  const char* ncls = m->done || !m->byName ? 0 : !m->released ? "resolving" : !m->sockKnown ? "resolved-unprocessed" : 0;
+  m->removedSelected = m->inBatch && !m->done; m->removedVenue = g_venue; m->removedClass = ncls;
+  setctxf("Server.remove(Establisher)/%s/%s%s", m->done ? "finished" : ncls ? ncls : m->inBatch ? "event-selected" : "pending", VN[g_venue], m == g_selfEstab ? "/self" : "");
+  hist.addf("  [%s] remove(establisher%d)%s\n", VN[g_venue], m->id, m->done ? " (finished)" : ncls ? (!m->released ? " (its name is being resolved)" : " (name resolved, result not yet processed by the loop)") : m->inBatch ? " (event selected, undelivered)" : " (pending)");
   g_srv->remove(*m->e);
   m->alive = false; m->e = 0; setctx(ctxBase());
   cnt("establishers_removed"); if (m->removedSelected) cnt("removed_with_selected_event");
-  { char it[64]; snprintf(it, sizeof it, "establisher/%s/%s", VN[g_venue], m->done ? "finished" : m->removedSelected ? "selected" : "pending"); setItem("removal_classes", it); }
+  if (ncls) cnt(!m->released ? "establishers_removed_while_resolving" : "establishers_removed_resolved_unprocessed");
+  { char it[64]; snprintf(it, sizeof it, "establisher/%s/%s", VN[g_venue], m->done ? "finished" : ncls ? ncls : m->removedSelected ? "selected" : "pending"); setItem("removal_classes", it); }
   ++g_removals; g_fp = mix(g_fp, 900 + (u64)m->id);
 }
 static void doInterrupt(int times) {
@@ -397,8 +488,16 @@ static void doAct(int a) {
     break; }
   case A_LISTEN_NEW: if (apiAllowed() && aliveN(g_ls) < 3 && g_ls.n < 15) newListener(); break;
   case A_LISTEN_DEL: { if (!apiAllowed()) return; ListenerM* l = (g_selfListener && g_selfListener->alive && r.chance(1, 3)) ? g_selfListener : pickAlive(g_ls, true); if (l) removeListener(l); break; }
-  case A_ESTAB_NEW: if (apiAllowed() && aliveN(g_es) < 4 && g_es.n < 12 && g_cl.n < 60) newEstab(r.chance(3, 5)); break;
+  case A_ESTAB_NEW: if (apiAllowed() && aliveN(g_es) < 4 && g_es.n < 16 && g_cl.n < 60) newEstab(pickEstabKind()); break;
   case A_ESTAB_DEL: { if (!apiAllowed()) return; EstabM* e = pickAlive(g_es, true); if (e && e != g_selfEstab) removeEstab(e); break; }
+  case A_BROADCAST_DEAD: {   // writes to several clients fail hard in one go: all of them are queued for onClosed in the same loop iteration
+    if (!apiAllowed()) return;
+    Vec<ClientM*> c; for (size_t i = 0; i < g_cl.n; ++i) { ClientM* m = g_cl[i]; if (m->alive && !m->expectClosed && !m->closedSeen && m->backlog() == 0) c.push(m); }
+    if (c.n < 2) return;
+    int n = 2 + (int)r.below(c.n >= 3 ? 2 : 1);
+    for (int k = 0; k < n; ++k) { size_t at = (size_t)r.below(c.n); ClientM* m = c[at]; c.removeAt(at); m->forceSend = 3; clientWrite(m, 1 + (long)r.below(300)); }
+    cnt("broadcasts_to_dead_peers");
+    break; }
   case A_INTERRUPT: doInterrupt(r.chance(1, 4) ? 2 : 1); break;
   case A_PEER_SEND: { ClientM* c = pickAlive(g_cl, false); if (c) { peerSend(c, 1 + (long)r.below(r.chance(1, 6) ? 20000 : 200)); if (r.chance(1, 6)) c->skipReads = 1 + (int)r.below(2); } break; }
   case A_PEER_CLOSE: {
@@ -408,6 +507,11 @@ static void doAct(int a) {
     if (c->origin != 0 && graceful) lingerReset(c->pfd, false);
     cnt(graceful ? "peer_closes_graceful" : "peer_closes_reset");
     hist.addf("  peer of client%d closes%s\n", c->id, graceful ? "" : " (reset)"); close(c->pfd); c->pfd = -1; c->peerClosed = true; c->peerEof = true; cnt("peer_closes");
+    break; }
+  case A_RESOLVE: {   // external: a pending name resolution completes (also of an establisher that was removed meanwhile)
+    if (g_intrReq) return;
+    Vec<EstabM*> w; for (size_t i = 0; i < g_es.n; ++i) if (g_es[i]->byName && !g_es[i]->released) w.push(g_es[i]);
+    if (w.n) releaseGate(w[r.below(w.n)]);
     break; }
   case A_RAW_CONNECT: { ListenerM* l = pickAlive(g_ls, false); if (l && g_rawConnects < 16 && aliveN(g_cl) < 12) { int n = 1 + (int)g_rng->below(3); for (int i = 0; i < n; ++i) rawConnect(l); } break; }
   default: break;
@@ -555,6 +659,11 @@ void CCB::onClosed() {
   m->closedSeen = true;
   int sv = g_venue; ClientM* ss = g_selfClient; g_venue = V_CLOSED; g_selfClient = m;
   react();
+  {
+    // session teardown: the handler also drops another client whose own close notification is still queued in the loop (it must never arrive)
+    Vec<ClientM*> pc; for (size_t i = 0; i < g_cl.n; ++i) { ClientM* o = g_cl[i]; if (o != m && o->alive && o->expectClosed && !o->closedSeen) pc.push(o); }
+    if (pc.n) { cnt("onClosed_while_other_close_notifications_pending"); if (g_rng->chance(1, 2)) { cnt("clients_removed_with_close_notification_pending"); removeClient(pc[g_rng->below(pc.n)]); } }
+  }
   if (m->alive) removeClient(m);
   g_venue = sv; g_selfClient = ss;
 }
@@ -578,12 +687,15 @@ Server::Client::ICallback* LCB::onAccepted(Server::Client& client, uint32 ip, ui
   return &c->cb;
 }
 Server::Client::ICallback* ECB::onConnected(Server::Client& client) {
-  enterCallback("onConnected", m->alive, "Establisher", m->id, m->removedSelected, m->removedVenue, 0);
+  enterCallback("onConnected", m->alive, "Establisher", m->id, m->removedSelected, m->removedVenue, m->removedClass);
   cnt("onConnected"); m->inBatch = false;
   hist.addf("  t=%lld onConnected(establisher%d)\n", (long long)ns::vnow(), m->id);
   if (m->done) fail("Server.Establisher/second-callback", "establisher %d got onConnected after it had already finished", m->id);
+  if (m->byName && !m->released) fail("Server.Establisher/by-name/callback-before-resolution", "establisher %d got onConnected although the resolution of its host name has not completed", m->id);
+  if (m->kind == EK_NAME_FAIL) fail("Server.Establisher.onConnected/unresolvable-name", "establisher %d connected although its host name does not resolve", m->id);
   if (!m->openTarget) fail("Server.Establisher.onConnected/closed-port", "establisher %d connected to a port nobody listens on", m->id);
   m->done = true;
+  if (m->byName) { cnt("onConnected_by_name"); if (!m->sockKnown) { m->lport = localPort((int)client.getSocket().getFileDescriptor()); m->sockKnown = true; } }
   int pfd = rawAcceptFor(m->lport);
   if (pfd < 0) harnessBug("raw listener has no connection from port %u", (unsigned)m->lport);
   int sv = g_venue; EstabM* ss = g_selfEstab; g_venue = V_CONNECT; g_selfEstab = m;
@@ -598,15 +710,24 @@ Server::Client::ICallback* ECB::onConnected(Server::Client& client) {
   return &c->cb;
 }
 void ECB::onAbolished() {
-  enterCallback("onAbolished", m->alive, "Establisher", m->id, m->removedSelected, m->removedVenue, 0);
+  enterCallback("onAbolished", m->alive, "Establisher", m->id, m->removedSelected, m->removedVenue, m->removedClass);
   cnt("onAbolished"); m->inBatch = false;
   hist.addf("  t=%lld onAbolished(establisher%d)\n", (long long)ns::vnow(), m->id);
   if (m->done) fail("Server.Establisher/second-callback", "establisher %d got onAbolished after it had already finished", m->id);
+  if (m->byName && !m->released) fail("Server.Establisher/by-name/callback-before-resolution", "establisher %d got onAbolished although the resolution of its host name has not completed", m->id);
   if (m->openTarget) cnt("abolished_although_port_open");
+  if (m->byName) cnt(m->kind == EK_NAME_FAIL ? "onAbolished_unresolvable_name" : "onAbolished_by_name_connect_failed");
   m->done = true;
   int sv = g_venue; EstabM* ss = g_selfEstab; g_venue = V_ABOLISH; g_selfEstab = m;
   react();
+  void* slot = (void*)m->e;
   if (g_rng->chance(1, 2)) removeEstab(m);
+  // retry / fallback host from inside the callback: a new connect by name right after the failed establisher was removed takes over its pool slot
+  if (g_rng->chance(1, 2) && aliveN(g_es) < 4 && g_es.n < 16 && g_cl.n < 60) {
+    static const int RK[] = { EK_NAME_OPEN, EK_NAME_FAIL, EK_NAME_OPEN, EK_NAME_CLOSED };
+    EstabM* n = newEstab(RK[g_rng->below(4)]);
+    if (n) { cnt("reconnects_by_name_in_onAbolished"); if (!m->alive && (void*)n->e == slot) cnt("reconnects_by_name_reusing_the_removed_slot"); }
+  }
   g_venue = sv; g_selfEstab = ss;
 }
 
@@ -696,6 +817,12 @@ static int idleLiveness() {
   }
   for (size_t i = 0; i < g_es.n; ++i) {
     EstabM* m = g_es[i]; if (!m->alive || m->done) continue;
+    if (m->byName) {
+      if (!m->released) { cnt("idle_points_with_resolution_pending"); continue; }   // nothing to expect before getaddrinfo has returned
+      refreshEstab(m);
+      // the resolver thread had written the loop's wake-up descriptor before the scenario went on: the loop has been woken since and is idle again
+      if (!m->sockKnown) fail("Server.Establisher/by-name/resolution-result-not-processed", "establisher %d: the resolution of its host name completed and the loop was woken, but the loop is about to block again without having started the connect or called onAbolished", m->id);
+    }
     cnt("independent_poll_checks");
     int re = su::pollNow(m->fd, POLLOUT | POLLERR | POLLHUP);
     if (re) return strike("Server.Establisher/connect-result-not-dispatched", "establisher %d: connect finished (poll() 0x%x) but the loop's poll set reports nothing and is about to block", m->id, re, m->fd, EPOLLOUT);
@@ -722,7 +849,10 @@ static int hIdle(int epfd, int timeout, long elapsed, long* adv) {
   if (timeout < 0) fail("Server.run/poll-timeout-infinite", "the loop polls without a timeout");
   int sv = g_venue; g_venue = V_IDLE;
   int result;
-  if (g_stepsLeft <= 0) { g_final = true; doInterrupt(1); result = ns::IDLE_AGAIN; }
+  EstabM* waiting = 0;
+  if (g_stepsLeft <= 0) for (size_t i = 0; i < g_es.n && !waiting; ++i) if (g_es[i]->byName && !g_es[i]->released) waiting = g_es[i];
+  if (waiting) { cnt("resolutions_completed_in_final_phase"); if (!releaseGate(waiting)) harnessBug("idle loop with a readable wake-up descriptor"); result = ns::IDLE_AGAIN; }   // every resolution is seen by the loop before the scenario ends
+  else if (g_stepsLeft <= 0) { g_final = true; doInterrupt(1); result = ns::IDLE_AGAIN; }
   else {
     long remaining = (long)(g_nextStepAt - ns::vnow()), tleft = *adv;
     if (remaining > 0 && tleft <= remaining) {
@@ -755,10 +885,13 @@ static void beginWorld(Rng& r) {
   g_selfTimer = 0; g_selfClient = 0; g_selfListener = 0; g_selfEstab = 0;
   g_rng = &r;
   g_srv = new Server;
+  g_eventFd = ns::lastEventFd();   // the wake-up descriptor of the server's poll set
+  pthread_mutex_lock(&g_gateMx); memset(g_gate, 0, sizeof g_gate); pthread_mutex_unlock(&g_gateMx);
 }
 static void endWorld(Rng& r) {
   int variant = (int)r.below(3);
   g_venue = V_OUT;
+  openAllGates();   // none is waiting any more (final phase of the loop); the destructor joins the resolver threads
   // end-to-end check of everything still alive
   for (size_t i = 0; i < g_cl.n; ++i) {
     ClientM* m = g_cl[i]; if (!m->alive) continue;
@@ -823,6 +956,8 @@ static void worldCase(long idx) {
   if (focus == 1) { g_w[A_PAIR_NEW] += 4; g_w[A_PEER_SEND] = 10; g_w[A_CLIENT_DEL] = 8; }
   if (focus == 2) { g_w[A_LISTEN_NEW] += 4; g_w[A_RAW_CONNECT] = 8; g_w[A_ESTAB_NEW] = 6; }
   if (!g_w[A_INTERRUPT]) g_w[A_INTERRUPT] = r.chance(1, 2) ? 1 : 0;
+  if (g_w[A_ESTAB_NEW] && g_w[A_RESOLVE] < 3) g_w[A_RESOLVE] = 3;
+  if (g_w[A_BROADCAST_DEAD] > 2) g_w[A_BROADCAST_DEAD] = g_w[A_BROADCAST_DEAD] & 1;   // rare: it takes two or three clients out of the scenario at once
   g_reactPermille = 100 + (u32)r.below(600);
   g_recvFaults = r.chance(1, 3);
   g_stepsLeft = 5 + (long)r.below(21);
@@ -987,6 +1122,7 @@ int main(int argc, char** argv) {
   } else {
     ns::hooks.sendPlan = hSendPlan; ns::hooks.sendDone = hSendDone; ns::hooks.drain = hDrain; ns::hooks.recvPlan = hRecvPlan; ns::hooks.recvDone = hRecvDone;
     ns::hooks.waitEnter = hWaitEnter; ns::hooks.waitLeave = hWaitLeave; ns::hooks.idle = hIdle;
+    ns::resolveHook = resolveHook;
     if (!strcmp(md, "world")) {
       for (long idx = opts.start; idx < opts.start + opts.cases; ++idx) { if (!mine(idx)) continue; beginCase(idx); worldCase(idx); }
     } else if (!strcmp(md, "equal-due")) {
